@@ -29,7 +29,7 @@ BUILTIN_NAMES = {
     # specification vocabulary
     'old', 'implies', 'iff', 'fresh_bytes', 'fresh_refs', 'fresh_int', 'in_seq', 'ascii_bytes', 'all_ascii', 'ieee32', 'ieee64', 'f32_overflow', 'progressbar', 'timeit', 'hc_name_ok', 'enum_member',
 }
-MODULE_NAMES = {'h5py', 'np', 'np.zeros', 'np.dtype', 'datetime', 'numpy', 're', 'logging', 'struct', 'functools', 'h5py', 'datetime_mod', 'enums', 'eflr_types', 'timezone'}
+MODULE_NAMES = {'os', 'h5py', 'np', 'np.zeros', 'np.dtype', 'datetime', 'numpy', 're', 'logging', 'struct', 'functools', 'h5py', 'datetime_mod', 'enums', 'eflr_types', 'timezone'}
 
 _OPS = {'Add': operator.add, 'Sub': operator.sub, 'Mult': operator.mul, 'Mod': operator.mod, 'FloorDiv': operator.floordiv,
         'Div': operator.truediv, 'Pow': operator.pow, 'BitAnd': operator.and_, 'BitOr': operator.or_, 'BitXor': operator.xor,
